@@ -37,14 +37,42 @@
        A x = b and always returns (C02_lu_solve_correct, C02_lu_solve_total); solve(A,b,indefinite_full_rank,left) as a
        whole (C02_lu_solve_full_correct); solve(b,right) = trsv<upper,right>, trsv<unit_lower,right>,
        swap_rows_inverted(P,b) returns x with x A = b (C02_lu_solve_right_correct).
+     * EXTENSION (C02PstrfModel.v, C02PstrfProofs.v): the pivoted Cholesky kernels::pstrf<lower> of kernels/default/pstrf.hpp as
+       repaired (stop test `pivot <= epsilon`) -- threshold, pivot values refreshed per block / updated per column,
+       std::max_element (first largest), swap of rows AND columns of the whole matrix, lazy gemv update of the current
+       column inside a block, clearing, and the blocked driver with the gemm update of the trailing square -- for every
+       size, every block size > 0, every threshold eps >= 0, the square root exact on the pivots met (ghost list carried
+       by the model's result; satisfiable over Q: C02_Q_pstrf_hypotheses_satisfiable): on return with rank r the pivot
+       vector denotes a permutation, L L^T = P^T A P on all rows x the first r columns (lower part; every entry when A
+       is symmetric, C02_pstrf_correct_symm), the cleared parts are zero, the diagonal is non-zero with squares = the
+       pivots met, each pivot > eps (C02_pstrf_correct); over the order laws of section PstrfOrdered (they hold over Qc:
+       C02_Q_order_instance, C02_Q_pstrf_order_instance) the pivots are non-increasing and at the stop every diagonal
+       entry of the remaining Schur complement is <= eps (C02_pstrf_ordered).
+     * EXTENSION (C02SemiModel.v, C02SemiProofs.v): symm_pos_semi_definite_solver (the symm_semi_pos_def path of solve):
+       constructor (pstrf, then potrf of L^T L when the rank is not full) and solve(b) for a vector (swap_rows, rank 0 /
+       full rank: two trsv / rank deficient: z = L^T b, two Cholesky solves, b = L z; swap_rows_inverted), every storage
+       orientation, through the contracts of pstrf and potrf: for an exact factorisation of rank r the result satisfies
+       A (A x - b) = 0 (C02_semi_solve_with_lsq), equals a solution of A x = b whenever b is in the range of A
+       (C02_semi_solve_with_in_range; uses injectivity of L^T L), and the solve always returns
+       (C02_semi_solve_with_total); for row-major storage the contracts are discharged by the pstrf and blocked-potrf
+       theorems (C02_semi_solve_rowmajor).  "Exact factorisation" (zero Schur complement) is a hypothesis: it is what
+       pstrf returns for a matrix of rank r in exact arithmetic when the stop fires at zero pivots.
+     * EXTENSION (C02UpdModel.v, C02UpdProofs.v): cholesky_decomposition::update(alpha, beta, v) as coded (beta == 0 branch;
+       column loop with Ljj, dj, wj, swj2, gamma, x, the `x <= 0` exception, beta_prime, the `gamma == 0` continue), over
+       the abstract field with the square root exact on the values met: when it returns, L' L'^T = alpha L L^T +
+       beta v v^T entry by entry (C02_chol_update_correct), the strict upper triangle is untouched
+       (C02_chol_update_upper); over the order laws of section UpdateOrdered (they hold over Qc,
+       C02_Q_update_order_instance) it returns for every beta >= 0 (C02_chol_update_returns).
    ONLY COMPARED / MONITORED by tools/c02.py (no theorem): the value potrf returns on failure (the index is relative to
    the diagonal block that failed; compared with the model); the blocked
    potrf when the diagonal blocks use the right-looking kernel (column-major lower / row-major upper, n > 32: compared
-   with the unblocked model, the factor being unique); pivoted Cholesky (pstrf) and the semi-definite least-squares
-   solver; matrix right-hand sides of the LU class (the model applies the vector routine column by column / row by
-   row; compared exactly); symmetric eigen-decomposition, conjugate gradient, Cholesky rank-one update, the OpenBLAS bindings, all floating-point rounding. *)
+   with the unblocked model, the factor being unique); the semi-definite solver with MATRIX right-hand sides (trsm instead of
+   trsv: the vector model is applied column by column / row by row and compared exactly) and for column-major storage the
+   potrf of L^T L (right-looking kernel; contract assumed in C02_semi_solve_with_lsq); matrix right-hand sides of the LU class (the model applies the vector routine column by column / row by
+   row; compared exactly); symmetric eigen-decomposition, conjugate gradient, the OpenBLAS bindings, all floating-point rounding. *)
 From Coq Require Import List Arith Bool Lia Field QArith Qcanon Permutation.
 From SharkV Require Import C02Model C02Proofs C02Q C02QProofs C02BlkModel C02LUProofs C02CholBlkProofs C02BlkTotalProofs C02LURightProofs.
+From SharkV Require Import C02PstrfModel C02PstrfProofs C02PstrfOrdProofs C02PstrfQProofs C02SemiModel C02SemiProofs C02SemiQProofs C02UpdModel C02UpdProofs C02UpdQProofs.
 Local Close Scope Qc_scope. Local Close Scope Q_scope. Local Open Scope nat_scope.
 
 Section AnyField.
@@ -269,3 +297,200 @@ Theorem C02_Q_getrf_hypothesis_satisfiable :
   (exists L, potrf_rec Qc (qc_ops ex_sq) 1 1 2 2 0 2 ex_M = BOk Qc L).
 Proof. exact ex_blk_hypotheses_satisfiable. Qed.
 Print Assumptions C02_Q_getrf_hypothesis_satisfiable.
+
+(* ================= extension: pivoted Cholesky  kernels::pstrf<lower>  (C02PstrfModel.v / C02PstrfProofs.v) ================= *)
+Section Pstrf.
+Variable A : Type.
+Variable F : ops A.
+Hypothesis Fth : field_theory (fzero F) (fone F) (fadd F) (fmul F) (fsub F) (fopp F) (fdiv F) (finv F) (@eq A).
+Hypothesis feqb_spec : forall x y, feqb F x y = true <-> x = y.
+
+(* On return with rank r (for every size n, every block size bs > 0, every threshold 0 <= eps; the square root exact on the
+   pivots met): the pivot vector is a sequence of transpositions t <-> P(t) >= t, hence denotes a permutation s of 0..n-1;
+   (L L^T)(i,t) = (P^T A P)(i,t) = A(s i, s t) for all rows i and the first r columns t <= i, the sum running over the r
+   columns of L; rows t < r are zero right of the diagonal, the trailing (n-r) x (n-r) block is zero; the diagonal of the
+   first r columns is non-zero, its squares are the pivots met, every one of them > eps (not <= eps). *)
+Theorem C02_pstrf_correct : forall eps bs n (A0 L : mat A) r P piv, fleb F (fzero F) eps = true -> 0 < bs ->
+  pstrf A F bs n eps A0 = (r, L, P, piv) -> sq_ok A F piv ->
+  r <= n /\
+  (forall t, t < n -> t <= P t < n) /\
+  Permutation (map (perm_of P 0 n) (seq 0 n)) (seq 0 n) /\
+  (forall i t, t < r -> t <= i < n ->
+     sumr A F 0 r (fun u => fmul F (L i u) (L t u)) = A0 (perm_of P 0 n i) (perm_of P 0 n t)) /\
+  (forall t u, t < r -> t < u < n -> L t u = fzero F) /\
+  (forall i j, r <= i < n -> r <= j < n -> L i j = fzero F) /\
+  (forall t, t < r -> L t t <> fzero F) /\
+  length piv = r /\
+  (forall t, t < r -> fmul F (L t t) (L t t) = nth t piv (fzero F) /\ fleb F (nth t piv (fzero F)) eps = false).
+Proof. intros eps bs n A0 L r P piv He. exact (pstrf_spec A F Fth eps He bs n A0 L r P piv). Qed.
+
+(* for a symmetric matrix: every entry of rows x first r columns -- in particular the leading r x r block of P^T A P is L L^T *)
+Theorem C02_pstrf_correct_symm : forall eps bs n (A0 L : mat A) r P piv, fleb F (fzero F) eps = true -> 0 < bs ->
+  pstrf A F bs n eps A0 = (r, L, P, piv) -> sq_ok A F piv -> (forall i j, A0 i j = A0 j i) ->
+  forall i t, i < n -> t < r ->
+  sumr A F 0 r (fun u => fmul F (L i u) (L t u)) = A0 (perm_of P 0 n i) (perm_of P 0 n t).
+Proof. intros eps bs n A0 L r P piv He. exact (pstrf_spec_symm A F Fth eps He bs n A0 L r P piv). Qed.
+
+(* over an ordered field (fltb x y : x < y, fleb x y : x <= y): the pivots met are non-increasing -- the max-diagonal rule --
+   and at a stop with rank r every diagonal entry of the remaining Schur complement  A(s i, s i) - sum_{u<r} L(i,u)^2  is <= eps *)
+Section PstrfOrdered.
+Hypothesis lt_irrefl : forall x, fltb F x x = false.
+Hypothesis lt_trans : forall x y z, fltb F y x = false -> fltb F y z = true -> fltb F z x = false.
+Hypothesis le_of_nlt : forall x y, fltb F y x = false -> fleb F x y = true.
+Hypothesis le_trans : forall x y z, fleb F x y = true -> fleb F y z = true -> fleb F x z = true.
+Hypothesis le_sub_sq : forall x y, fleb F (fsub F x (fmul F y y)) x = true.
+Theorem C02_pstrf_ordered : forall eps bs n (A0 L : mat A) r P piv, fleb F (fzero F) eps = true -> 0 < bs ->
+  pstrf A F bs n eps A0 = (r, L, P, piv) -> sq_ok A F piv ->
+  (forall t, S t < r -> fleb F (nth (S t) piv (fzero F)) (nth t piv (fzero F)) = true) /\
+  (forall i, r <= i < n ->
+     fleb F (fsub F (A0 (perm_of P 0 n i) (perm_of P 0 n i)) (sumr A F 0 r (fun u => fmul F (L i u) (L i u)))) eps = true).
+Proof.
+  intros eps bs n A0 L r P piv He.
+  exact (pstrf_ordered A F Fth eps He lt_irrefl lt_trans le_of_nlt le_trans le_sub_sq bs n A0 L r P piv).
+Qed.
+End PstrfOrdered.
+End Pstrf.
+Print Assumptions C02_pstrf_correct.
+Print Assumptions C02_pstrf_correct_symm.
+Print Assumptions C02_pstrf_ordered.
+
+(* the two order laws used above beyond those of C02_Q_order_instance hold over Qc *)
+Theorem C02_Q_pstrf_order_instance : forall sq,
+  (forall x y z, fleb (qc_ops sq) x y = true -> fleb (qc_ops sq) y z = true -> fleb (qc_ops sq) x z = true) /\
+  (forall x y, fleb (qc_ops sq) (fsub (qc_ops sq) x (fmul (qc_ops sq) y y)) x = true).
+Proof. intros sq. exact (conj (qc_le_trans sq) (qc_le_sub_sq sq)). Qed.
+Print Assumptions C02_Q_pstrf_order_instance.
+
+(* the hypotheses (0 <= eps for the threshold the code computes, exact square root on the pivots met) are satisfiable over Qc:
+   a full-rank run with two swaps and a trailing update (block size 2, n = 3) and a rank-one run *)
+Theorem C02_Q_pstrf_hypotheses_satisfiable :
+  fleb ps_F (fzero ps_F) (pstrf_eps Qc ps_F qc_abs 3 ps_epsm ps_M3) = true /\
+  (let '(_, _, _, piv) := pstrf_full Qc ps_F qc_abs 2 3 ps_epsm ps_M3 in sq_ok Qc ps_F piv) /\
+  (let '(_, _, _, piv) := pstrf_full Qc ps_F qc_abs 2 3 ps_epsm ps_R1 in sq_ok Qc ps_F piv).
+Proof. exact ex_pstrf_hypotheses_satisfiable. Qed.
+Print Assumptions C02_Q_pstrf_hypotheses_satisfiable.
+
+(* ================= extension: symm_pos_semi_definite_solver / solve(A,b,symm_semi_pos_def)  (C02SemiModel.v / C02SemiProofs.v) ================= *)
+Section Semi.
+Variable A : Type.
+Variable F : ops A.
+Hypothesis Fth : field_theory (fzero F) (fone F) (fadd F) (fmul F) (fsub F) (fopp F) (fdiv F) (finv F) (@eq A).
+Hypothesis feqb_spec : forall x y, feqb F x y = true <-> x = y.
+Hypothesis fleb_00 : fleb F (fzero F) (fzero F) = true.
+
+(* solve(b) of the decomposition class, every storage orientation, given what the constructor computed THROUGH ITS CONTRACTS:
+   P a pivot vector, L L^T = P^T A P exactly (rank r, zero Schur complement), rows of L zero right of the diagonal, and -- rank
+   deficient case -- Lc a lower Cholesky factor of L^T L.  Then the result is a least-squares solution: A (A x - b) = 0. *)
+Theorem C02_semi_solve_with_lsq : forall o n r (A0 L : mat A) P Lc b x, r <= n -> pgood P 0 n n ->
+  (forall i j, i < n -> j < n -> sumr A F 0 r (fun u => fmul F (L i u) (L j u)) = A0 (perm_of P 0 n i) (perm_of P 0 n j)) ->
+  (forall t u, t < r -> t < u < n -> L t u = fzero F) ->
+  (0 < r < n -> chol_contract A F n r L Lc) ->
+  semi_solve_with A F o n r L P Lc b = Some x ->
+  forall i, i < n -> mv A F n A0 (fun k => fsub F (mv A F n A0 x k) (b k)) i = fzero F.
+Proof. exact (semi_solve_with_lsq A F Fth feqb_spec). Qed.
+
+(* ... and the exact solution when b is in the range of A (needs the non-zero diagonal of Lc) *)
+Theorem C02_semi_solve_with_in_range : forall o n r (A0 L : mat A) P Lc b w x, r <= n -> pgood P 0 n n ->
+  (forall i j, i < n -> j < n -> sumr A F 0 r (fun u => fmul F (L i u) (L j u)) = A0 (perm_of P 0 n i) (perm_of P 0 n j)) ->
+  (forall t u, t < r -> t < u < n -> L t u = fzero F) ->
+  (0 < r < n -> chol_contract A F n r L Lc /\ forall a, a < r -> Lc a a <> fzero F) ->
+  (forall k, k < n -> b k = mv A F n A0 w k) ->
+  semi_solve_with A F o n r L P Lc b = Some x ->
+  forall i, i < n -> mv A F n A0 x i = b i.
+Proof. exact (semi_solve_with_in_range A F Fth feqb_spec). Qed.
+
+Theorem C02_semi_solve_with_total : forall o n r (L : mat A) P Lc b,
+  (r = n -> forall t, t < n -> L t t <> fzero F) -> (0 < r < n -> forall a, a < r -> Lc a a <> fzero F) -> r <= n ->
+  exists x, semi_solve_with A F o n r L P Lc b = Some x.
+Proof. exact (semi_solve_with_total A F feqb_spec). Qed.
+
+(* the whole path as coded for row-major storage (contracts discharged by C02_pstrf_correct_symm and
+   C02_potrf_blocked_correct): pstrf with block size psbs, then -- if r < n -- potrf of L^T L, then the solve.  For a symmetric
+   matrix whose pivoted factorisation is exact of rank r (zero Schur complement), square roots exact on the pivots met:
+   A (A x - b) = 0, and A x = b whenever b = A w for some w. *)
+Theorem C02_semi_solve_rowmajor : forall eps psbs bs tbs n (A0 L Lc : mat A) r P piv b x,
+  fleb F (fzero F) eps = true -> 0 < psbs -> 0 < bs -> 0 < tbs ->
+  (forall i j, A0 i j = A0 j i) ->
+  pstrf A F psbs n eps A0 = (r, L, P, piv) -> sq_ok A F piv ->
+  (forall i j, r <= i < n -> r <= j < n ->
+     A0 (perm_of P 0 n i) (perm_of P 0 n j) = sumr A F 0 r (fun u => fmul F (L i u) (L j u))) ->
+  (0 < r < n -> potrf_rec A F bs tbs r r 0 r (semi_gram A F n r L) = BOk A Lc /\
+                sqrt_exact_lower A F r r (semi_gram A F n r L)) ->
+  semi_solve_with A F RowMajor n r L P Lc b = Some x ->
+  (forall i, i < n -> mv A F n A0 (fun k => fsub F (mv A F n A0 x k) (b k)) i = fzero F) /\
+  (forall w, (forall k, k < n -> b k = mv A F n A0 w k) -> forall i, i < n -> mv A F n A0 x i = b i).
+Proof. exact (semi_solve_rowmajor A F Fth feqb_spec fleb_00). Qed.
+End Semi.
+Print Assumptions C02_semi_solve_with_lsq.
+Print Assumptions C02_semi_solve_with_in_range.
+Print Assumptions C02_semi_solve_with_total.
+Print Assumptions C02_semi_solve_rowmajor.
+
+(* satisfiable over Qc: A = 1 1^T (4 x 4, rank 1), b = (4,0,0,0): pstrf returns rank 1, potrf of L^T L = (4) succeeds with exact
+   square roots, semi_solve returns (the minimal-norm least-squares solution (1/4,1/4,1/4,1/4), ex_semi_solve) *)
+Theorem C02_Q_semi_hypotheses_satisfiable :
+  fst (fst (fst ex_semi_run)) = 1 /\ sq_ok Qc ps_F (snd ex_semi_run) /\
+  (exists Lc, potrf_rec Qc ps_F 32 32 1 1 0 1 ex_semi_G = BOk Qc Lc) /\ sqrt_exact_lower Qc ps_F 1 1 ex_semi_G /\
+  (exists x, semi_solve Qc ps_F qc_abs 20 32 32 RowMajor 4 ps_epsm ex_ones ex_semi_b = Some x).
+Proof. exact ex_semi_hypotheses_satisfiable. Qed.
+Print Assumptions C02_Q_semi_hypotheses_satisfiable.
+
+(* ================= extension: cholesky_decomposition::update(alpha, beta, v)  (C02UpdModel.v / C02UpdProofs.v) ================= *)
+Section Update.
+Variable A : Type.
+Variable F : ops A.
+Hypothesis Fth : field_theory (fzero F) (fone F) (fadd F) (fmul F) (fsub F) (fopp F) (fdiv F) (finv F) (@eq A).
+Hypothesis feqb_spec : forall x y, feqb F x y = true <-> x = y.
+Hypothesis fleb_00 : fleb F (fzero F) (fzero F) = true.
+
+(* when update returns (both branches, beta == 0 and the column loop): entry (i,k), k <= i, of L' L'^T equals
+   alpha (L L^T)(i,k) + beta v(i) v(k)  (LL L i k = sum_{t<=k} L(i,t) L(k,t), the lower triangle of L L^T; both sides are symmetric).
+   alpha <> 0, non-zero diagonal of L, the square root exact on the values it was taken of (ghost list sq). *)
+Theorem C02_chol_update_correct : forall n alpha beta (L0 : mat A) (v : vec A) L' sq, alpha <> fzero F ->
+  (forall j, j < n -> L0 j j <> fzero F) ->
+  chol_update A F n alpha beta L0 v = UOk A L' sq -> usq_ok A F sq ->
+  forall i k, k <= i < n ->
+    LL A F L' i k = fadd F (fmul F alpha (LL A F L0 i k)) (fmul F (fmul F beta (v i)) (v k)).
+Proof. exact (chol_update_correct A F Fth feqb_spec fleb_00). Qed.
+
+Theorem C02_chol_update_upper : forall n alpha beta (L0 : mat A) (v : vec A) L' sq, beta <> fzero F ->
+  chol_update A F n alpha beta L0 v = UOk A L' sq -> forall i c, i < c -> L' i c = L0 i c.
+Proof. exact (chol_update_upper A F feqb_spec). Qed.
+
+(* over an ordered field: for beta >= 0 (and sqrt(alpha) <> 0, non-zero diagonal) the update never throws *)
+Section UpdateOrdered.
+Hypothesis pos_1 : pos A F (fone F).
+Hypothesis pos_sq : forall x, x <> fzero F -> pos A F (fmul F x x).
+Hypothesis pos_add : forall x y, pos A F x -> nonneg A F y -> pos A F (fadd F x y).
+Hypothesis nn_mul : forall x y, nonneg A F x -> nonneg A F y -> nonneg A F (fmul F x y).
+Hypothesis nn_sq : forall x, nonneg A F (fmul F x x).
+Hypothesis nn_div : forall x y, nonneg A F x -> pos A F y -> nonneg A F (fdiv F x y).
+Hypothesis pos_nle : forall x, pos A F x -> fleb F x (fzero F) = false.
+Theorem C02_chol_update_returns : forall n alpha beta (L0 : mat A) (v : vec A), fsqrt F alpha <> fzero F -> nonneg A F beta ->
+  (forall j, j < n -> L0 j j <> fzero F) -> exists L' sq, chol_update A F n alpha beta L0 v = UOk A L' sq.
+Proof. exact (chol_update_returns A F Fth pos_1 pos_sq pos_add nn_mul nn_sq nn_div pos_nle). Qed.
+End UpdateOrdered.
+End Update.
+Print Assumptions C02_chol_update_correct.
+Print Assumptions C02_chol_update_upper.
+Print Assumptions C02_chol_update_returns.
+
+Theorem C02_Q_update_hypotheses_satisfiable :
+  exists L' sq, chol_update Qc ps_F 2 (qc_make 1 1) (qc_make 3 1) ex_upd_L ex_upd_v = UOk Qc L' sq /\ usq_ok Qc ps_F sq /\
+    (forall j, j < 2 -> ex_upd_L j j <> fzero ps_F).
+Proof. exact ex_update_hypotheses_satisfiable. Qed.
+Print Assumptions C02_Q_update_hypotheses_satisfiable.
+
+Theorem C02_Q_update_order_instance : forall sq,
+  pos Qc (qc_ops sq) (fone (qc_ops sq)) /\
+  (forall x, x <> fzero (qc_ops sq) -> pos Qc (qc_ops sq) (fmul (qc_ops sq) x x)) /\
+  (forall x y, pos Qc (qc_ops sq) x -> nonneg Qc (qc_ops sq) y -> pos Qc (qc_ops sq) (fadd (qc_ops sq) x y)) /\
+  (forall x y, nonneg Qc (qc_ops sq) x -> nonneg Qc (qc_ops sq) y -> nonneg Qc (qc_ops sq) (fmul (qc_ops sq) x y)) /\
+  (forall x, nonneg Qc (qc_ops sq) (fmul (qc_ops sq) x x)) /\
+  (forall x y, nonneg Qc (qc_ops sq) x -> pos Qc (qc_ops sq) y -> nonneg Qc (qc_ops sq) (fdiv (qc_ops sq) x y)) /\
+  (forall x, pos Qc (qc_ops sq) x -> fleb (qc_ops sq) x (fzero (qc_ops sq)) = false).
+Proof.
+  intros sq. exact (conj (qc_pos_1 sq) (conj (qc_pos_sq sq) (conj (qc_pos_add sq) (conj (qc_nn_mul sq) (conj (qc_nn_sq sq)
+    (conj (qc_nn_div sq) (qc_pos_nle sq))))))).
+Qed.
+Print Assumptions C02_Q_update_order_instance.
